@@ -7,11 +7,10 @@ ID = 'C11'
 LEAN_TARGETS = ['Props.C11']
 OBLIGATIONS = [
     'C11.adjoint_dot', 'C11.compose', 'C11.from_function_on_blades', 'C11.from_function_linear', 'C11.apply_add', 'C11.apply_smul',
-    'C11.from_rotor_linear', 'C11.outer_wedge', 'C11.outer_one', 'C11.outer_vector', 'C11.outer_add', 'C11.outer_smul', 'C11.outer_grade', 'C11.outer_compose',
+    'C11.from_rotor_linear', 'C11.outer_wedge', 'C11.outer_one', 'C11.outer_vector', 'C11.outer_add', 'C11.outer_smul', 'C11.outer_grade', 'C11.outer_compose', 'C11.outer_pseudoscalar',
 ]
-PENDING = ['f(I) = det(m) I (Leibniz formula vs. the n-fold wedge) is evaluated exactly on the implementation, not proved',
-           'the columns built by the executable Model.makeOutermorphism equal Fprod in storage order: compared with the implementation, not proved']
-PARTIAL = ['f(I) = det(m) I has no theorem; the executable outermorphism model is linked to the proof-side ordered products by correspondence only']
+PENDING = ['the columns built by the executable Model.makeOutermorphism equal Fprod in storage order: compared with the implementation, not proved']
+PARTIAL = ['the executable outermorphism model is linked to the proof-side ordered products by correspondence only']
 RULE = ("source/destination layouts of dimensions 0..4 (equal or different, any signatures incl. degenerate, custom orders), integer vector matrices of every shape, "
         "integer multivectors; generating functions: random linear maps, rotor sandwiches; non-trivial = non-zero matrix and non-scalar operand; "
         "distinct = distinct (layouts, matrix, operands) text")
